@@ -446,6 +446,14 @@ pub async fn pools_scenario(nl: usize, nd: usize, grace_s: u64, out: &mut ScOut)
         cfg.seed_nodes.push(self_addr.to_string());
         cfg.seed_nodes.push("localhost:30001".to_string());
     }
+    if (nl + nd) % 4 == 2 {
+        // a seed given by a name that does not resolve next to the literal one: the periodic refresh must keep the literal
+        // seed in the set (an isolated node still contacts it after the first refresh)
+        cfg.seed_nodes.push("seed-that-does-not-resolve.invalid:30001".to_string());
+    }
+    // every send fails during rounds 8..16 in a third of the scenarios (attempts are logged whatever their outcome): a
+    // failed send to one target must not take the rest of the round with it
+    let failing_sends = (nl + nd) % 3 == 0;
     cfg.failure_detector_config = FailureDetectorConfig { phi_threshold: 3.0, sampling_window_size: 10, max_interval: Duration::from_secs(2), initial_interval: Duration::from_secs(1), dead_node_grace_period: Duration::from_secs(grace_s) };
     let handle = match spawn_chitchat(cfg, vec![], &transport).await {
         Ok(h) => h,
@@ -466,6 +474,9 @@ pub async fn pools_scenario(nl: usize, nd: usize, grace_s: u64, out: &mut ScOut)
             digest.extend(deads.iter().map(|id| WDigestEntry { id: id.clone(), heartbeat: hbv, last_gc: 0, max_version: 0 }));
         }
         let bytes = syn_bytes("c", &digest);
+        if failing_sends {
+            shared.lock().unwrap().mode = if (8..16).contains(&k) { 1 } else { 0 };
+        }
         let (live, dead, peers, sched, seeds): (Vec<SocketAddr>, Vec<SocketAddr>, Vec<SocketAddr>, usize, Vec<SocketAddr>) = handle
             .with_chitchat(|c| {
                 if !digest.is_empty() {
@@ -495,8 +506,14 @@ pub async fn pools_scenario(nl: usize, nd: usize, grace_s: u64, out: &mut ScOut)
             out.findings.push(Finding::new(&["C17", "C19"], "pools.no_round", format!("{ctx}: no SYN at all (a seed exists)")));
             break;
         }
-        if seeds.len() > 1 {
-            out.c.inc("server_rounds_with_resolved_seed_names");
+        // the literal seed of the configuration belongs to the seed set for the whole run
+        let mut seeds = seeds;
+        if !seeds.contains(&seed_addr) {
+            out.c.inc("server_rounds_where_the_literal_seed_left_the_seed_set");
+            seeds.push(seed_addr);
+        }
+        if failing_sends && (8..16).contains(&k) {
+            out.c.inc("server_rounds_with_failing_sends");
         }
         if dests.contains(&self_addr) || dests.iter().any(|d| !peers.contains(d) && !seeds.contains(d)) {
             out.findings.push(Finding::new(&["C17"], "pools.foreign_target", format!("{ctx}: a target is the node itself or in none of the pools")));
